@@ -9,7 +9,7 @@ for p in ("work/confirm-seeds.log", "seeded/confirm.log"):
     p = os.path.join(root, p)
     if os.path.exists(p):
         for line in open(p):
-            m = re.match(r"(C\d\d): (.*)", line.strip())
+            m = re.match(r"(C\d\d(?:-\d+)?): (.*)", line.strip())
             if m: confirm[m.group(1)] = m.group(2)
 for sid in sorted(os.listdir(os.path.join(root, "seeded"))):
     d = os.path.join(root, "seeded", sid)
@@ -29,7 +29,7 @@ for sid in sorted(os.listdir(os.path.join(root, "seeded"))):
         "patch": "patch.diff",
         "demonstration": {"file": "demo/" + os.path.basename(demo.get("file", "")), "copy_to": demo.get("copy_to"), "command": demo.get("command")},
         "confirmed_by_me": {
-            "how": "tools/confirm_seed.sh in the scratch worktree /tmp/seed-%s (removed afterwards): git apply patch.diff; cargo test --workspace --no-fail-fast --offline; demonstration copied in and run with the change; git apply -R; demonstration run without the change" % sid,
+            "how": "tools/confirm_seed.sh in the scratch worktree /tmp/seed-%s (removed afterwards; second-wave seeds C<nn>-2 used /tmp/seed-C<nn> again): git apply patch.diff; cargo test --workspace --no-fail-fast --offline; demonstration copied in and run with the change; git apply -R; demonstration run without the change" % sid,
             "result": confirm.get(sid, "not recorded"),
         },
         "checks_run_against_it": {
